@@ -182,6 +182,9 @@ func ptStr(p refsecp.Point) string {
 	if p.Inf {
 		return "infinity"
 	}
+	if p.X == nil || p.Y == nil {
+		return "(no point)"
+	}
 	return fmt.Sprintf("(%x, %x)", refsecp.B32(p.X), refsecp.B32(p.Y))
 }
 
@@ -261,6 +264,18 @@ func (m *groupMachine) apply(s *gstate, oi int) (ns gstate, key, what string) {
 	}
 	if !refsecp.Equal(got, want) {
 		return ns, "group/" + gkindName[o.kind] + "-wrong-result", fmt.Sprintf("%s: result denotes %s, the group law gives %s (operands %s)", m.names[oi], ptStr(got), ptStr(want), operandsStr(s, o))
+	}
+	// operands other than the destination still denote the same point (they may be
+	// re-normalised in place, so the denoted point is compared when the limbs changed)
+	for j := range ns {
+		if j == o.dst {
+			continue
+		}
+		if ns[j].j.Infinity != s[j].j.Infinity || !ns[j].j.X.Equals(&s[j].j.X) || !ns[j].j.Y.Equals(&s[j].j.Y) || !ns[j].j.Z.Equals(&s[j].j.Z) {
+			if p, bad := affineOf(&ns[j].j); bad != "" || !refsecp.Equal(p, ns[j].m) {
+				return ns, "group/" + gkindName[o.kind] + "-clobbers-operand", fmt.Sprintf("%s changed register j%d, which now denotes %s instead of %s", m.names[oi], j, ptStr(p), ptStr(ns[j].m))
+			}
+		}
 	}
 	if !want.Inf && !refsecp.OnCurve(want) {
 		panic("model point left the curve")
